@@ -446,7 +446,12 @@ func (rd *remoteDelivery) Close() error {
 		rd.rt.limits.ReleaseDest(conn.domain)
 		conn.transactions++
 
-		if !conn.Usable() {
+		// A connection used while the security policies were disabled for
+		// the message (TLS-Required: No) was not vetted by them, do not let
+		// other messages reuse it.
+		overridden := rd.msgMeta.TLSRequireOverride && rd.rt.allowSecOverride
+
+		if !conn.Usable() || overridden {
 			rd.Log.Debugf("disconnected %v from %s (errored=%v,transactions=%v,disconnected before=%v)",
 				conn.LocalAddr(), conn.ServerName(), conn.errored, conn.transactions, conn.C.Client() == nil)
 			conn.Close()
